@@ -82,7 +82,7 @@ theorem adjIdx_le (n a k : Int) (_hn : 0 ≤ n) (hk0 : 0 ≤ k) (hkn : k < n) :
     (adjIdx n a ≤ k) ↔ ((a < 0 ∧ a + n ≤ k) ∨ (0 ≤ a ∧ a ≤ k)) := by
   unfold adjIdx; split <;> split <;> omega
 
-theorem lt_adjIdx (n b k : Int) (hn : 0 ≤ n) (hk0 : 0 ≤ k) (hkn : k < n) :
+theorem lt_adjIdx (n b k : Int) (_hn : 0 ≤ n) (hk0 : 0 ≤ k) (hkn : k < n) :
     (k < adjIdx n b) ↔ ((b < 0 ∧ k < b + n) ∨ (0 ≤ b ∧ k < b)) := by
   unfold adjIdx; split <;> split <;> omega
 
@@ -540,7 +540,7 @@ theorem pin_stop (start stop : GArg) (hk : keysConsistent start stop) (hv : ∀ 
         simp [paramToConst, GArg.pin, List.lookup]
       · have : (k' == k) = false := by simp [hkk]
         simp [paramToConst, GArg.pin, List.lookup, this]
-    · simp [paramToConst, GArg.pin, List.lookup]
+    · simp [paramToConst, GArg.pin]
   · simp [paramToConst, GArg.pin]
 
 theorem pin_toArg (g : GArg) (dflt : Int) : (g.pin dflt).toArg = g.asArg dflt := by
